@@ -796,7 +796,7 @@ func (a *Act) env(st State, ov map[ssa.Value]Val, at *ssa.BasicBlock) *Env {
 	for k, v := range a.recvVars {
 		vars[k] = v
 	}
-	return &Env{g: a.g, act: a, vars: vars, st: st, old: a.entrySt, pkg: a.pkg, phiOv: ov, at: at}
+	return &Env{g: a.g, act: a, vars: vars, st: st, old: a.entrySt, pkg: a.pkg, phiOv: ov, at: at, aliasKey: a.g.topKey}
 }
 
 func (a *Act) trClause(env *Env, c Clause, what string) (out string) {
